@@ -85,6 +85,25 @@ run proxytable_named_local C20 $S '                state.remote_actors.insert(ac
                 Ok(remote_actor)' '                let proxy = remote_actor.clone();
                 state.remote_actors.insert(actor_pid, proxy);
                 Ok(remote_actor)' "--only-unit proxytable"
+run ttlsweep_flag_local C13 ractor/src/factory/queues.rs '            if queued_item.is_expired() {
+                if let Some(handler) = discard_handler {
+                    handler.discard(DiscardReason::TtlExpired, queued_item);
+                }
+                false
+            } else {
+                true
+            }
+        });
+        before - self.q.len()' '            let gone = queued_item.is_expired();
+            if gone {
+                if let Some(handler) = discard_handler {
+                    handler.discard(DiscardReason::TtlExpired, queued_item);
+                }
+            }
+            !gone
+        });
+        let after = self.q.len();
+        before - after' "--only-unit ttlsweep"
 (cd $wt && git checkout -q -- .)
 git -C /repo worktree remove --force $wt 2>/dev/null
 [ $fail -eq 0 ] && echo "harmless battery: all ok" || echo "harmless battery: FAILURES"
